@@ -172,7 +172,7 @@ func (s *State) Clone() *State {
 func (s *State) Hash() string {
 	var att []string
 	for a := range s.Attesters {
-		att = append(att, a[len(a)-6:])
+		att = append(att, tail(a))
 	}
 	sort.Strings(att)
 	return fmt.Sprintf("o%s|p%s/%v|a%s|u%s|t%s|f%v%v|th%d|at%v|l%d|pr%d|m%d|un%d|nn%d|mb%d",
